@@ -1,5 +1,6 @@
 """Helpers that run inside the implementation-side worker (they import pyp0f / Scapy)."""
 import os
+import pathlib
 import tempfile
 
 from scapy.layers.inet import IP as ScapyIP
@@ -42,6 +43,9 @@ def scapy_from_bytes(raw, v):
     return (ScapyIP if v == 4 else ScapyIPv6)(raw)
 
 
+_LOADS = [0]
+
+
 def load_db(text, db=None):
     """Loads `text` as a database file.  Every load of a worker process goes through the SAME path with new contents, so that
     anything remembered per path (instead of per contents) shows up as a stale database."""
@@ -51,7 +55,8 @@ def load_db(text, db=None):
         with open(path, "w", encoding="utf-8", newline="") as f:
             f.write(text)
         db = Database() if db is None else db
-        db.load(path)
+        _LOADS[0] += 1
+        db.load(path if _LOADS[0] % 2 else pathlib.Path(path))      # both accepted path types
         return db
     finally:
         try:
